@@ -187,6 +187,14 @@ func scanLexemes(code string) (out []lexeme) {
 	return out
 }
 
+func canonNumber(s string) string {
+	s = strings.ToLower(s)
+	if !strings.HasPrefix(s, "0x") {
+		s = strings.Replace(s, "e+", "e", 1)
+	}
+	return s
+}
+
 func offsetToLineCol(ti *textIndex, off int) (int, int) {
 	l := 0
 	for k := range ti.lines {
@@ -233,7 +241,7 @@ func c08Check(c c08Case, rec *evid.Recorder) *Fail {
 		gl, sl := scanLexemes(res.Code), scanLexemes(c.Src)
 		aligned := len(gl) == len(sl)
 		for i := 0; aligned && i < len(gl); i++ {
-			aligned = gl[i].class == sl[i].class && gl[i].text == sl[i].text
+			aligned = gl[i].class == sl[i].class && (gl[i].text == sl[i].text || (gl[i].class == "number" && canonNumber(gl[i].text) == canonNumber(sl[i].text)))
 		}
 		gIdx := map[int]int{}
 		if aligned {
@@ -270,6 +278,12 @@ func c08Check(c c08Case, rec *evid.Recorder) *Fail {
 				}
 				gc, gt := lexemeAt(res.Code, g)
 				sc, st := lexemeAt(c.Src, so)
+				if gc == "number" && sc == "number" {
+					// the same numeric literal may be printed in a canonical spelling
+					// (`0XFF` as `0xff`, `1E+3` as `1e3`); which literal it is is fixed
+					// by the occurrence alignment below
+					gt, st = canonNumber(gt), canonNumber(st)
+				}
 				if gc != sc || gt != st || gc == "none" || gc == "other" {
 					why = fmt.Sprintf("generated %d:%d starts %s %q, source %d:%d starts %s %q", s.GenLine, s.GenCol, gc, gt, s.SrcLine, s.SrcCol, sc, st)
 					continue
